@@ -134,6 +134,38 @@ extern "C" int signal_()
   return 0;
 }
 
+// set() releases all *current* waiters: threads blocked in wait() when set() is called return, even if reset() follows at once
+static uint pulseWaiter(void*)
+{
+  bool ok = g_signal->wait();
+  vf_assert(ok, "untimed wait returns true");
+  vf_assert(g_setStarted > 0, "a wait returns true only if the signal was set");
+  return 1;
+}
+static uint pulseSetter(void* arg)
+{
+  unsigned n = (unsigned)(usize)arg;
+  while(vf_cond_waiters() < n) Thread::yield();          // until n threads are blocked inside wait()
+  Atomic::increment(g_setStarted);
+  g_signal->set();
+  g_signal->reset();
+  return 0;
+}
+extern "C" int signal_pulse()
+{
+  {
+    Signal s; g_signal = &s; g_setStarted = 0;
+    unsigned n = 1 + vf_pick(2);
+    Thread w1, w2, st;
+    w1.start(pulseWaiter, 0); if(n == 2) w2.start(pulseWaiter, 0);
+    st.start(pulseSetter, (void*)(usize)n);
+    w1.join(); if(n == 2) w2.join(); st.join();           // a waiter left blocked is reported by the scheduler (deadlock)
+    vf_assert(!s.wait(0), "after set(); reset() the signal is not set");
+  }
+  vf_reach("end");
+  return 0;
+}
+
 // ------------------------------------------------------------------------------------------------ Monitor
 static Monitor* g_monitor; static volatile uint32 g_sets, g_waitsOk; static volatile uint32 g_holding;
 static uint monWaiter(void* arg)
